@@ -8,6 +8,7 @@ B  unary ops x all 85 lshapes x groups, constructors.
 C  every name in HANDLED_FUNCTIONS: result type / ltype / warnings vs torch_function (tf_bad), values vs raw torch.
 D  retain_ltype / pp.func.jacrev: random bodies with nesting and injected exceptions vs Model/Patch.v (patch_bad).
 E  non-mutation sweep over the public API + write sets vs the effect model (eff_bad).
+The defects repaired by c362486, 9407769, 146d9a5, 613c139, 084bc81 stay in as directed regression cases.
 """
 import itertools, math, random, warnings, copy, importlib
 from ..common import *
@@ -682,6 +683,26 @@ def direct_handled_check(torch, pp, name, label, f, inplace, Xmk, amk):
     return None
 
 
+def kwarg_calls(torch, X, Yr):
+    """(label, thunk, name, raw result leaf, positional ltypes, keyword ltypes)"""
+    return [('torch.index_select(input=X, dim=0, index=i)', lambda: torch.index_select(input=X, dim=0, index=torch.tensor([1])), 'index_select', 'LPlain [1%nat; 4%nat]', [], ['SO3_t']),
+            ('torch.cat(tensors=[X, X])', lambda: torch.cat(tensors=[X, X]), 'cat', 'LPlain [4%nat; 4%nat]', [], ['SO3_t', 'SO3_t']),
+            ('torch.stack(tensors=[X, X])', lambda: torch.stack(tensors=[X, X]), 'stack', 'LPlain [2%nat; 2%nat; 4%nat]', [], ['SO3_t', 'SO3_t']),
+            ('torch.cat(tensors=[raw, Y_rxso3, X])', lambda: torch.cat(tensors=[raw(X, torch), Yr, X]), 'cat', 'LPlain [6%nat; 4%nat]', [], ['rxso3_t', 'SO3_t']),
+            ('X.index_select(dim=0, index=i)', lambda: X.index_select(dim=0, index=torch.tensor([1])), 'index_select', 'LPlain [1%nat; 4%nat]', ['SO3_t'], []),
+            ('torch.gather(Y_rxso3, 0, index=.., ) ', lambda: torch.gather(Yr, 0, index=torch.tensor([[1, 0, 1, 0]])), 'gather', 'LPlain [1%nat; 4%nat]', ['rxso3_t'], [])]
+
+
+def check_kwarg_call(torch, label, f):
+    """property: a handled shape-only function returns a LieTensor of the (first) argument's ltype"""
+    try:
+        r = f()
+    except Exception as e:
+        return '%s raises %r' % (label, repr(e)[:150])
+    want = 'rxso3Type' if 'rxso3' in label else 'SO3Type'
+    return None if ltype_name(r, torch) == want else '%s returns %s / ltype %s instead of a %s LieTensor' % (label, type(r).__name__, ltype_name(r, torch), want)
+
+
 def part_handled(ctx, pp, torch, files2, meta2):
     from pypose.lietensor.lietensor import HANDLED_FUNCTIONS
     rng = ctx.rng
@@ -777,25 +798,25 @@ def part_handled(ctx, pp, torch, files2, meta2):
                         ctx.count('dispatched-under-other-name:%s->%s' % (name, fname))
                     c['search'] = (lambda name=name, label=label, f=f, inplace=inplace, Xmk=Xmk, amk=amk:
                                    direct_handled_check(torch, pp, name, label, f, inplace, Xmk, amk))
-                    cases.append((c, '(@IDX@%%nat, %s, %s, %s, %s)' % (nm_lit, data_lit, coq_list(pl), obs_lit)))
-    # keyword-only call forms: the faithful model raises IndexError (C06_wrap_kwargs_refuted)
+                    cases.append((c, '(@IDX@%%nat, %s, %s, %s, [], %s)' % (nm_lit, data_lit, coq_list(pl), obs_lit)))
+    # keyword call forms (regression for fix 613c139: these raised IndexError)
     X = pp.LieTensor(torch.tensor([[0., 0., 0., 1.], [0.5, 0.5, 0.5, 0.5]], dtype=torch.float64), ltype=pp.SO3_type)
-    for label, f, nm, dlit in [('torch.index_select(input=X, dim=0, index=i)', lambda: torch.index_select(input=X, dim=0, index=torch.tensor([1])), 'index_select', 'LPlain [1%nat; 4%nat]'),
-                               ('torch.cat(tensors=[X, X])', lambda: torch.cat(tensors=[X, X]), 'cat', 'LPlain [4%nat; 4%nat]'),
-                               ('torch.stack(tensors=[X, X])', lambda: torch.stack(tensors=[X, X]), 'stack', 'LPlain [2%nat; 2%nat; 4%nat]')]:
-        ctx.case(('tf-kw', label), branch='handled-keyword-only')
+    Yr = pp.LieTensor(torch.tensor([[0.25, 0., 0., 1.], [0.5, 0.5, 0.5, 0.5]], dtype=torch.float64), ltype=pp.rxso3_type)
+    for label, f, nm, dlit, pos, kws in kwarg_calls(torch, X, Yr):
+        ctx.case(('tf-kw', label), branch='handled-keyword')
         c = dict(kind='handled-kwargs', label=label, name=nm, key='kwargs:' + nm)
+        what = check_kwarg_call(torch, label, f)
         try:
             r = f()
             obs = 'TFData %s [false]' % coq_list([leaf_lit(r, torch)])
         except IndexError:
             obs = 'TFIndexError'
-            ctx.violation('__torch_function__:handled-function:lietensor-by-keyword:IndexError',
-                          '%s raises IndexError (list index out of range): __torch_function__ looks for the ltype among the positional arguments only' % label, c)
         except Exception as e:
             obs = 'TFNone'
-            ctx.mismatch('handled-kwargs', dict(c, err=repr(e)[:200]))
-        cases.append((c, '(@IDX@%%nat, (Some "%s"%%string), (Some [%s]), [], %s)' % (nm, dlit, obs)))
+        if what:
+            ctx.violation('__torch_function__:handled-function:lietensor-by-keyword', what, c)
+        c['search'] = (lambda label=label, f=f: check_kwarg_call(torch, label, f))
+        cases.append((c, '(@IDX@%%nat, (Some "%s"%%string), (Some [%s]), %s, %s, %s)' % (nm, dlit, coq_list(pos), coq_list(kws), obs)))
     for si, sh in enumerate(shard(cases, 200)):
         base = len(meta2)
         lits = [lit.replace('@IDX@', str(base + j)) for j, (_, lit) in enumerate(sh)]
@@ -894,7 +915,7 @@ def body_lit(b):
         return 'BRaise'
     if k == 'call':
         return '(BCall %s %s)' % (PatchEnv.SITES[b['site']][0], body_lit(b['next']))
-    return '(BNest %s %s %s)' % (coq_list(PatchEnv.SITES[i][0] for i in b.get('ord', [0, 1, 2])), body_lit(b['inner']), body_lit(b['next']))
+    return '(BNest %s %s)' % (body_lit(b['inner']), body_lit(b['next']))
 
 
 def exec_body(env, b, trace, retain_ltype):
@@ -907,7 +928,6 @@ def exec_body(env, b, trace, retain_ltype):
         mi, a = PatchEnv.SITES[b['site']][1], PatchEnv.SITES[b['site']][2]
         trace.append((b['site'], env.layers(getattr(env.mods[mi], a))))
         return exec_body(env, b['next'], trace, retain_ltype)
-    b['ord'] = env.set_order()
     with retain_ltype():
         exec_body(env, b['inner'], trace, retain_ltype)
     exec_body(env, b['next'], trace, retain_ltype)
@@ -950,7 +970,7 @@ def run_patch_trace(env, retain_ltype, pristine, body):
     except ValueError as e:
         res['err'] = str(e)
         obs = '[]'
-    res['lit'] = '%s, %s, %s, (%s, %s, %s))' % ('true' if pristine else 'false', coq_list(PatchEnv.SITES[i][0] for i in top['ord']),
+    res['lit'] = '%s, %s, (%s, %s, %s))' % ('true' if pristine else 'false',
                                                body_lit(body), obs, 'true' if raised else 'false',
                                                coq_list('(%s, %d%%nat)' % (PatchEnv.SITES[s][0], n) for s, n in trace))
     env.reset(False)
@@ -1093,8 +1113,7 @@ def part_jacrev(ctx, pp, torch, env, cases):
                 body = dict(k='raise') if r['raised'] else dict(k='ret')
                 for si, _ in reversed(r['log']):
                     body = dict(k='call', site=si, next=body)
-                # the order of the set is not observable here; with one level every order gives the same observables
-                lit = 'false, [S_make_dual; S_wrap_grad; S_add_batch], %s, (%s, %s, %s))' % (
+                lit = 'false, %s, (%s, %s, %s))' % (
                     body_lit(body), r['obs'], 'true' if r['raised'] else 'false',
                     coq_list('(%s, %d%%nat)' % (PatchEnv.SITES[s][0], n) for s, n in r['log']))
                 c2 = dict(c)
@@ -1264,16 +1283,12 @@ def part_purity(ctx, pp, torch, files2, meta2):
         if eff is not None:
             code, b1, b2 = eff[0], eff[1], eff[2]
             if code == 12:
-                b3, n, exact = eff[3], 0, eff[4]
-                # exact only when a write must be visible: offset != 0 and the longer stamps are the caller's float64 tensor
-                exact = bool(exact)
-                if not exact:
-                    pass
+                b3, n, exact = eff[3], 0, True
             elif code == 13:
-                b3, n, exact = False, eff[3], (len(eff) > 4 and eff[4]) or not b1
+                b3, n, exact = False, eff[3], True
             else:
                 b3, n = False, eff[3]
-                exact = len(eff) > 4 and bool(eff[4]) or code in (0, 1, 2, 3, 4, 5, 8, 10)
+                exact = True
             obs = sorted({p[0] for p in bad if isinstance(p[0], int)})
             tb = lambda v: 'true' if v else 'false'
             c2 = dict(c, eff=list(eff[:4]), observed=obs)
@@ -1340,13 +1355,11 @@ def replay(ctx, c):
         return None
     if kind == 'handled-kwargs':
         X = pp.LieTensor(torch.tensor([[0., 0., 0., 1.], [0.5, 0.5, 0.5, 0.5]], dtype=torch.float64), ltype=pp.SO3_type)
-        f = {'index_select': lambda: torch.index_select(input=X, dim=0, index=torch.tensor([1])), 'cat': lambda: torch.cat(tensors=[X, X]),
-             'stack': lambda: torch.stack(tensors=[X, X])}[c['name']]
-        try:
-            r = f()
-        except Exception as e:
-            return '%s raises %r' % (c['label'], repr(e)[:150])
-        return None if ltype_name(r, torch) == 'SO3Type' else '%s does not return an SO3 LieTensor' % c['label']
+        Yr = pp.LieTensor(torch.tensor([[0.25, 0., 0., 1.], [0.5, 0.5, 0.5, 0.5]], dtype=torch.float64), ltype=pp.rxso3_type)
+        for label, f, nm, dlit, pos, kws in kwarg_calls(torch, X, Yr):
+            if label == c['label']:
+                return check_kwarg_call(torch, label, f)
+        return None
     if kind == 'patch':
         from pypose.lietensor.lietensor import retain_ltype
         env = PatchEnv()
